@@ -16,6 +16,7 @@ import ClairModel.Lib.Sm
 import ClairModel.Proofs.IndexerFF
 import ClairModel.Proofs.IndexerHist
 import ClairModel.Proofs.ScanPar
+import ClairModel.Proofs.IndexerExt
 import ClairModel.Gen.Controller
 
 -- every variable of a property statement is bound explicitly: a misspelt name is an error, not a new variable
@@ -158,6 +159,59 @@ theorem lost_reply_counterexample :
     r.st.manifestScanned [1] cfg0.scanners = true ∧
     (r.st.report? [1]).map (fun x => (x.success, x.err)) = some (false, true) := by
   decide
+
+/-! ## Scanners whose configuration failed -/
+
+/-- The deployment the theorems speak of is the one the driver runs when every
+    scanner's `Configure` succeeded: `indexOff` (the model of `Libindex.Index`
+    with the scanners `configAndFilter` dropped) with nothing dropped is `index`. -/
+theorem index_without_dropped_scanners (sem : Sem) (o : Oracle) (cfg : Cfg) (m : Manifest) (st : Store) (d : Bool) :
+    indexOff (fun _ => false) sem o cfg m st d = index sem o cfg m st d :=
+  indexOff_none sem o cfg m st d
+
+/-- `configAndFilter` drops a scanner exactly when it has a `Configure` method
+    (ConfigurableScanner or RPCScanner) and that returns an error; `Configure`
+    is called on exactly the scanners having one, through the RPC interface
+    (with the HTTP client) when the scanner is an RPCScanner, with the
+    deployment's function iff one was supplied for (kind, name). -/
+theorem configAndFilter_spec (x : Impl) :
+    (configOne x).2 = !((x.rpc || x.configurable) && x.fails) ∧
+    (configOne x).1 = if x.rpc || x.configurable then some ⟨x.s, x.rpc, x.haveCfg, x.rpc⟩ else none :=
+  ⟨configOne_kept x, configOne_event x⟩
+
+/-- With a dropped scanner the statement is false of the code: package scanner
+    `a` (Configure fails) and distribution scanner `b`; a fault-free Index of
+    [1] returns a nil error and Success, the manifest is recorded as scanned by
+    `a` — which never ran: no scan entry, layer 1 not recorded as scanned by it.
+    (finding unconfigured-scanner-marked) -/
+theorem unconfigured_scanner_counterexample :
+    let a : Scanner := ⟨"a", "1", .pkg⟩
+    let cfg : Cfg := [{ ps := [a], ds := [⟨"b", "1", .dist⟩], rs := [], fs := [] }]
+    let r := indexOff (fun s => s == a) Witness.sem0 Witness.clean cfg [1] {} false
+    r.err = none ∧ r.report.map (·.success) = some true ∧ r.st.manifestScanned [1] cfg.scanners = true ∧
+    r.e.scans = [(1, ⟨"b", "1", .dist⟩)] ∧ r.st.layerScanned 1 a = false := by
+  decide
+
+/-! ## libindex.New -/
+
+/-- `libindex.New` returns a Libindex exactly when Locker, Store, FetchArena and
+    the HTTP client are present, no scanner constructor of an ecosystem fails in
+    either of the two walks (`EcosystemsToScanners` in New and in
+    NewLayerScanner) and `Store.RegisterScanners` succeeds. -/
+theorem new_succeeds_iff (i : NewIn) :
+    (newLib i).ok = true ↔
+      i.locker = true ∧ i.store = true ∧ i.arena = true ∧ i.client = true ∧ i.registerErr = false ∧
+      (∀ k, i.ctorErr = some k → 2 * i.nctor ≤ k) :=
+  newLib_ok_iff i
+
+/-- A failed `New` configured no scanner and hands out nothing to run; the
+    store was written to (RegisterScanners) only if the arguments were complete
+    and the first walk over the scanner constructors succeeded. -/
+theorem new_failure_is_clean (i : NewIn) (h : (newLib i).ok = false) :
+    (newLib i).events = [] ∧ (newLib i).running = [] ∧
+    ((newLib i).registered = true → i.locker = true ∧ i.store = true ∧ i.arena = true ∧ i.client = true ∧
+      ∀ k, i.ctorErr = some k → i.nctor ≤ k) :=
+  newLib_failed i h
 
 /-! ## Retry -/
 
